@@ -57,12 +57,40 @@
 (*    is sp.Certificate (SignedBy, KeyInfoCerts).  "The certificate in the  *)
 (*    SP's published metadata" is the FIRST certificate of that             *)
 (*    KeyDescriptor (VerifierCert): the signature must verify under it.     *)
+(*                                                                         *)
+(* WHO emits the AuthnRequest, and what it asks for (round 6):              *)
+(*  - the emission path (in.path): the application calls the               *)
+(*    ServiceProvider itself ("direct": it hands Make* the binding it then *)
+(*    renders with), or samlsp.Middleware.HandleStartAuthFlow does          *)
+(*    ("middleware"): the binding is CHOSEN there from Middleware.Binding   *)
+(*    (cfg.mwbinding: default "" / explicit redirect / explicit post) and   *)
+(*    from what the IdP's metadata offers for single sign-on (cfg.offers:   *)
+(*    redirect only / post only / both), handed to                          *)
+(*    MakeAuthenticationRequest (Handed) and used again to pick Redirect()  *)
+(*    or Post().  The statement's signing clauses speak about what is       *)
+(*    EMITTED: signed whenever a method is configured, refused when method  *)
+(*    and key do not fit - on every path, whatever was chosen and why.      *)
+(*  - the RESULT binding (in.result): ProtocolBinding of the AuthnRequest,  *)
+(*    HTTP-POST or HTTP-Artifact (samlsp Options.UseArtifactResponse).  The *)
+(*    SP's own metadata registers its ACS URL twice (SpAcsEndpoints: index  *)
+(*    1 HTTP-POST, index 2 HTTP-Artifact); this library's IdP looks the     *)
+(*    request's AssertionConsumerServiceURL up in it (IdpAcs) and must      *)
+(*    find it for either result binding (C12: IdpFindsAcs).                 *)
+(* Seeded deviations (constant Seeded, empty in every registered            *)
+(* enumeration; TLC must REFUTE the named invariant when one is on):        *)
+(*    HandsConfiguredBinding   the middleware hands Middleware.Binding      *)
+(*                             instead of the chosen binding to Make*       *)
+(*                             (refutes CarriesSignature / RefusesMismatch) *)
+(*    AcsLookupStopsAtFirst    the IdP requires the FIRST endpoint with the *)
+(*                             request's ACS URL to have the requested      *)
+(*                             binding (refutes IdpFindsAcs)                *)
 (***************************************************************************)
 EXTENDS Integers, Sequences, FiniteSets, TLC, Json
 
 CONSTANTS Family,      \* "C12q" | "C12t" | "C13q" | "C13t"
           IdBytes,     \* bytes drawn from RandReader per message ID (pinned tree: 20)
-          MaxSeq       \* bound on the length of creation sequences (ID freshness)
+          MaxSeq,      \* bound on the length of creation sequences (ID freshness)
+          Seeded       \* names of seeded deviations switched on ({} in every registered enumeration)
 
 MinIdBytes == 16       \* "at least 128 bits drawn from the configured random source"
 
@@ -105,6 +133,15 @@ IdpWants == {"absent", "true", "false"}
 \* sp.Intermediates (service_provider.go:80): the CA certificates between sp.Certificate and the trust anchor
 Chains   == {"none", "one", "two"}
 
+\* who emits the AuthnRequest: the application through ServiceProvider, or samlsp.Middleware.HandleStartAuthFlow
+Paths      == {"direct", "middleware"}
+\* which bindings the IdP's metadata offers a SingleSignOnService for
+Offers     == {"both", "redirect", "post"}
+\* samlsp.Middleware.Binding: "" (what samlsp.New leaves), or set explicitly
+MwBindings == {"default", "redirect", "post"}
+\* the binding the response is asked for: ProtocolBinding of the AuthnRequest (Middleware.ResponseBinding)
+Results    == {"post", "artifact"}
+
 NidFmts == {"unset", "transient", "unspecified", "email", "persistent"}
 Forces  == {"nil", "true", "false"}
 
@@ -114,8 +151,8 @@ Blob(s)   == Tok("blob", s)
 AMP == Tok("amp", "")
 EQ  == Tok("eq", "")
 
-VARIABLES cfg,      \* [query, method, mform, key, nidfmt, force, rac, idpwants, chain]
-          in,       \* [fam, kind, binding, relay, nameid, dest, swap]
+VARIABLES cfg,      \* [query, method, mform, key, nidfmt, force, rac, idpwants, chain, offers, mwbinding]
+          in,       \* [fam, kind, binding, relay, nameid, dest, swap, path, result]
           md,       \* sp.IDPMetadata now: the locations for the service and binding in use, in document order
           target,   \* [Variants -> endpoint] the URL the encoder writes the message to
           pc,
@@ -134,8 +171,18 @@ vars == <<cfg, in, md, target, pc, rnd, ids, msg, outcome, sigform, wire, signed
 (* input families *)
 
 BaseCfg == [query |-> "none", method |-> "", mform |-> "exact", key |-> "rsa2048", nidfmt |-> "unset", force |-> "nil", rac |-> FALSE,
-            idpwants |-> "absent", chain |-> "none"]
-InAt(f, k, b, rs, nid, d, sw) == [fam |-> f, kind |-> k, binding |-> b, relay |-> rs, nameid |-> nid, dest |-> d, swap |-> sw]
+            idpwants |-> "absent", chain |-> "none", offers |-> "both", mwbinding |-> "default"]
+InAt(f, k, b, rs, nid, d, sw) == [fam |-> f, kind |-> k, binding |-> b, relay |-> rs, nameid |-> nid, dest |-> d, swap |-> sw,
+                                  path |-> "direct", result |-> "post"]
+\* an AuthnRequest emitted on path p asking for the response over r
+InVia(f, b, rs, p, r) == [InAt(f, "authn", b, rs, <<>>, "first", FALSE) EXCEPT !.path = p, !.result = r]
+
+\* samlsp/middleware.go:137-151 HandleStartAuthFlow: Middleware.Binding if set, otherwise HTTP-Redirect when the
+\* IdP's metadata has a location for it (GetSSOBindingLocation # ""), otherwise HTTP-POST
+ChosenOf(offers, mwb) == IF mwb # "default" THEN mwb
+                         ELSE IF offers \in {"redirect", "both"} THEN "redirect" ELSE "post"
+\* consistent middleware settings: a binding set explicitly is one the IdP offers
+MwEnvs == { e \in Offers \X MwBindings : e[2] = "default" \/ e[1] \in {e[2], "both"} }
 In(f, k, b, rs, nid) == InAt(f, k, b, rs, nid, "first", FALSE)
 NidFor(k) == IF k = "logoutreq" THEN <<"plain">> ELSE <<>>
 
@@ -221,15 +268,40 @@ FamSigEnv(envs, pairs, relays, queries) ==
   \/ \E e \in envs, mk \in pairs :
       /\ cfg = [BaseCfg EXCEPT !.method = mk[1], !.key = mk[2], !.idpwants = e[1], !.chain = e[2]]
       /\ in = In("sig", "artifact", "soap", <<>>, <<>>)
+\* C13: WHO emits - samlsp.Middleware.HandleStartAuthFlow for every consistent (offers, Middleware.Binding) pair,
+\* and the application itself against an IdP offering one binding only - x method/key pairs (fitting, unknown,
+\* mismatched, signing off).  (direct, both) is FamSig's case.
+FamSigPath(pairs, relays, queries) ==
+  \/ \E e \in MwEnvs, mk \in pairs, q \in queries, rs \in relays :
+      /\ cfg = [BaseCfg EXCEPT !.query = q, !.method = mk[1], !.key = mk[2], !.offers = e[1], !.mwbinding = e[2]]
+      /\ in = InVia("sig", ChosenOf(e[1], e[2]), rs, "middleware", "post")
+  \/ \E o \in {"redirect", "post"}, mk \in pairs, q \in queries, rs \in relays :
+      /\ cfg = [BaseCfg EXCEPT !.query = q, !.method = mk[1], !.key = mk[2], !.offers = o]
+      /\ in = InVia("sig", o, rs, "direct", "post")
+\* C12: the RESULT binding x both request bindings x both paths (the middleware over every consistent setting);
+\* (direct, post) is FamRelay's case
+FamResult ==
+  \/ \E r \in Results, e \in MwEnvs, q \in Queries, m \in {"", "rsa-sha256"}, rs \in DestRelays :
+      /\ cfg = [BaseCfg EXCEPT !.query = q, !.method = m, !.offers = e[1], !.mwbinding = e[2]]
+      /\ in = InVia("result", ChosenOf(e[1], e[2]), rs, "middleware", r)
+  \/ \E b \in Bindings, q \in Queries, m \in {"", "rsa-sha256"}, rs \in DestRelays :
+      /\ cfg = [BaseCfg EXCEPT !.query = q, !.method = m]
+      /\ in = InVia("result", b, rs, "direct", "artifact")
+\* small families for the refutation runs (Seeded # {})
+FamDevPath   == FamSigPath({<<"rsa-sha256", "rsa2048">>, <<"ecdsa-sha256", "rsa2048">>}, {<<>>}, {"none"})
 \* ID freshness: arbitrary sequences of creations
 FamSeq == cfg = BaseCfg /\ in = In("seq", "seq", "none", <<>>, <<>>)
 
-Cases == CASE Family = "C12q" -> FamRelay(2) \/ FamNameID(2) \/ FamConfig \/ FamDest \/ FamSeq
-           [] Family = "C12t" -> FamRelay(3) \/ FamNameID(3) \/ FamConfig \/ FamDest \/ FamSeq
+Cases == CASE Family = "C12q" -> FamRelay(2) \/ FamNameID(2) \/ FamConfig \/ FamDest \/ FamResult \/ FamSeq
+           [] Family = "C12t" -> FamRelay(3) \/ FamNameID(3) \/ FamConfig \/ FamDest \/ FamResult \/ FamSeq
+           [] Family = "C12dev" -> FamResult
+           [] Family = "C13dev" -> FamDevPath
            [] Family = "C13q" -> FamSig(SigRelaysQ, Queries) \/ FamSigDest \/ FamSigNear({<<"plain">>}, {"none", "ab"})
                                    \/ FamSigEnv(EnvQuick, EnvPairsQ, {<<>>, <<"amp", "eq">>}, {"none", "ab"})
+                                   \/ FamSigPath(EnvPairsQ, {<<>>, <<"amp", "eq">>}, {"none", "ab"})
            [] Family = "C13t" -> FamSig(SigRelaysT, Queries) \/ FamSigDest \/ FamSigNear({<<>>, <<"plain">>, <<"amp", "eq">>}, Queries)
                                    \/ FamSigEnv(EnvAll, EnvPairsT, {<<>>, <<"amp", "eq">>}, {"none", "ab"})
+                                   \/ FamSigPath(EnvPairsT, {<<>>, <<"amp", "eq">>}, {"none", "ab"})
 
 \* the IdP's endpoints ---------------------------------------------------------------------------------
 \* an endpoint is [svc, at, query]: which service, which URL (scheme, host, path), which query string it carries.
@@ -267,10 +339,22 @@ SigningContext(m, f, k) == IF SwitchCase(m, f) = "unknown" THEN "error"         
                            ELSE IF SwitchCase(m, f) # KeyFamily(k) THEN "error"  \* requires a key of type ...
                            ELSE "ok"
 Signing == cfg.method # ""
-\* where the code signs: enveloped at creation for everything but a redirect-bound AuthnRequest
-\* (:548 "We don't need to sign the XML document if the IDP uses HTTP-Redirect binding"),
-\* which gets the detached query-string signature in Redirect() instead
-SignsEnveloped == Signing /\ ~(in.kind = "authn" /\ in.binding = "redirect")
+\* what the IdP's metadata offers: GetSSOBindingLocation(b) # "" (:346)
+Offered(b) == cfg.offers \in {b, "both"}
+\* the binding HandleStartAuthFlow chooses (samlsp/middleware.go:137-151), and renders with (:172 :181)
+MwChosen == ChosenOf(cfg.offers, cfg.mwbinding)
+\* the binding handed to MakeAuthenticationRequest: by the application the one it renders with; by the
+\* middleware the one it chose (:155)
+Handed == IF in.path = "middleware"
+            THEN (IF "HandsConfiguredBinding" \in Seeded
+                    THEN (IF cfg.mwbinding = "default" THEN "unset" ELSE cfg.mwbinding)    \* m.Binding
+                    ELSE MwChosen)
+            ELSE in.binding
+\* where the code signs: enveloped at creation for every kind but the AuthnRequest, which is signed there only
+\* when the binding handed to MakeAuthenticationRequest is HTTP-POST (:548 "We don't need to sign the XML
+\* document if the IDP uses HTTP-Redirect binding" - if len(sp.SignatureMethod) > 0 && binding == HTTPPostBinding);
+\* rendered with Redirect() it gets the detached query-string signature instead
+SignsEnveloped == Signing /\ (in.kind = "authn" => Handed = "post")
 SignsDetached  == Signing /\ in.kind = "authn" /\ in.binding = "redirect"
 
 \* Neither decision reads what the IdP's metadata says about signed requests (cfg.idpwants): Redirect() asks
@@ -302,7 +386,8 @@ Policy == CASE cfg.nidfmt = "unset" -> "transient"      \* :1612 back-compat def
             [] cfg.nidfmt = "unspecified" -> "absent"   \* empty Format = unspecified, attribute omitted
             [] OTHER -> cfg.nidfmt
 \* the one-step functions (:283 :655 :1415 :1455 :1529 :1569) pass the metadata's first location for the binding
-OneStepPossible == in.dest = "first" /\ ~in.swap
+\* (for the response over HTTP-POST, from the application)
+OneStepPossible == in.dest = "first" /\ ~in.swap /\ in.path = "direct" /\ in.result = "post"
 
 Create ==
   /\ pc = "create"
@@ -310,6 +395,7 @@ Create ==
   /\ msg' = [kind |-> in.kind, id |-> Issue(in.kind, rnd, IdBytes), issuer |-> "sp-entity",
              dest |-> Given,                                  \* Destination: idpURL  :536 :1390 :1505
              acs |-> IF in.kind = "authn" THEN "sp-acs" ELSE "none",
+             pbinding |-> IF in.kind = "authn" THEN in.result ELSE "none",   \* ProtocolBinding: resultBinding :538
              policy |-> IF in.kind = "authn" THEN Policy ELSE "none",
              nidformat |-> IF in.kind = "logoutreq" THEN Policy ELSE "none",
              force |-> IF in.kind = "authn" THEN cfg.force ELSE "nil",
@@ -552,6 +638,15 @@ IdpReads == in.kind = "authn" /\ in.binding = "redirect"
 \* the IdP that serves the URL the user agent is sent to compares the message's Destination with its own
 \* SSO URL, query string included (identity_provider.go:433); AuthnRequests of both bindings
 IdpDestOK(v) == msg.dest = target[v]
+\* sp.Metadata() :262-271 registers the SP's ACS URL twice: index 1 HTTP-POST, index 2 HTTP-Artifact
+SpAcsEndpoints == << [binding |-> "post", at |-> "sp-acs", index |-> 1], [binding |-> "artifact", at |-> "sp-acs", index |-> 2] >>
+\* identity_provider.go:487-505 getACSEndpoint, AssertionConsumerServiceURL branch: the first registered endpoint
+\* whose Location is the request's URL ("none": cannot find assertion consumer service)
+IdpAcs == LET hits == { i \in DOMAIN SpAcsEndpoints : SpAcsEndpoints[i].at = msg.acs } IN
+          IF hits = {} THEN "none"
+          ELSE LET i == CHOOSE j \in hits : \A k \in hits : j <= k IN
+               IF "AcsLookupStopsAtFirst" \in Seeded /\ SpAcsEndpoints[i].binding # msg.pbinding
+                 THEN "none" ELSE SpAcsEndpoints[i].at
 
 \* C12 ------------------------------------------------------------------------
 ExactlyOneSAMLParam    == Wired => F("req").nSAML = 1 /\ F("req").samlNamed /\ F("req").payload
@@ -563,11 +658,17 @@ IdpRecovers            == Wired /\ IdpReads => FGo("req").nSAML = 1 /\ FGo("req"
 \* for every idpURL (in the metadata or not, with or without a query) and whatever sp.IDPMetadata is by now
 DeliveredToDestination == Wired => F("req").delivered /\ target["req"] = Given /\ msg.dest = Given
 IdpAcceptsDestination  == Wired /\ in.kind = "authn" => IdpDestOK("req")
+\* "this library's IdP parses and validates every such authentication request" - for either binding the response
+\* is asked over: the IdP finds the SP's assertion consumer service, and the SP registered that binding there
+IdpFindsAcs            == Wired /\ in.kind = "authn" =>
+                            /\ IdpAcs = "sp-acs"
+                            /\ \E i \in DOMAIN SpAcsEndpoints : SpAcsEndpoints[i].at = msg.acs /\ SpAcsEndpoints[i].binding = msg.pbinding
 \* the decoded message carries the configured values (symbolic: Serialize is the identity on msg)
 MessageIntact == Done /\ outcome = "ok" =>
                    /\ msg.kind = in.kind /\ msg.issuer = "sp-entity" /\ msg.id = ids[Len(ids)]
                    /\ (in.kind # "artifact" => msg.dest = Given)
-                   /\ (in.kind = "authn" => msg.acs = "sp-acs" /\ msg.policy = Policy /\ msg.force = cfg.force /\ msg.rac = cfg.rac)
+                   /\ (in.kind = "authn" => msg.acs = "sp-acs" /\ msg.policy = Policy /\ msg.force = cfg.force /\ msg.rac = cfg.rac
+                                            /\ msg.pbinding = in.result)
                    /\ (in.kind = "logoutreq" => msg.nameid = in.nameid /\ msg.nidformat = Policy)
                    /\ (in.kind = "logoutresp" => msg.irt = "given")
 \* each message ID is fresh and derived from at least 128 bits of the stream (action property)
@@ -604,6 +705,17 @@ VerifiesUnderPublished == Done /\ MustSign => outcome = "ok" /\ VerifierCert = S
 \* or refused, never sent without a signature (the case split of CarriesSignature / RefusesMismatch leaves no
 \* room for cfg.idpwants; stated on its own so that the cfg shows which clause covers the dimension)
 SignedWhateverIdpWants == Done /\ Signing => (outcome = "ok" /\ sigform = RequiredForm) \/ (outcome = "error" /\ sigform = "none")
+\* on every path: what is EMITTED with a method configured is signed in the form its binding requires, or the
+\* emission is refused - because method and key do not fit, and only then.  RequiredForm reads the binding the
+\* message is emitted with; neither clause reads who chose it (in.path), why (cfg.mwbinding, cfg.offers), nor
+\* what Make* was told (Handed).
+SignedOnEveryPath == Done /\ Signing =>
+                       IF MustRefuse THEN outcome = "error" /\ sigform = "none" /\ wire["req"] = <<>>
+                       ELSE outcome = "ok" /\ sigform = RequiredForm
+\* model consistency: the middleware renders with the binding it chose, which the IdP offers, at the metadata's
+\* first location for it; it emits AuthnRequests only
+MiddlewareEmitsChosen == in.path = "middleware" =>
+                           in.kind = "authn" /\ in.binding = MwChosen /\ Offered(in.binding) /\ in.dest = "first" /\ ~in.swap
 SigningTableTotal == \A m \in MethodCfgs \ {""}, f \in MethodForms, k \in Keys : SigningContext(m, f, k) \in {"ok", "error"}
 \* model consistency: the one-step functions are the two-step API called with the metadata's first location
 OneStepIsFirstLocation == OneStepPossible /\ in.kind \in Kinds \ {"artifact"} => Given = FirstLocation(MdAtCreate) /\ md = MdAtCreate
@@ -624,12 +736,14 @@ Class == IF in.fam = "sig"
 Pred(v) == IF outcome = "ok" /\ in.binding \in Bindings
              THEN [outcome |-> outcome, sigform |-> sigform, flags |-> F(v),
                    idp |-> (IF IdpReads THEN FGo(v) ELSE [nSAML |-> 1, payload |-> TRUE, relayRT |-> TRUE])
-                           @@ [destOK |-> IdpDestOK(v)]]
+                           @@ [destOK |-> IdpDestOK(v), acsOK |-> in.kind # "authn" \/ IdpAcs = "sp-acs"]]
              ELSE [outcome |-> outcome, sigform |-> sigform]
 Emit == Done => PrintT(<<"VEC", ToJson([prop |-> Family, cfg |-> cfg, in |-> in, class |-> Class,
                                          required |-> [form |-> IF Signing THEN RequiredForm ELSE "none",
                                                        policy |-> Policy, nearmiss |-> NearMiss,
                                                        onestep |-> OneStepPossible,
+                                                     \* the binding the message is emitted with (the middleware's choice)
+                                                     chosen |-> IF in.path = "middleware" THEN MwChosen ELSE in.binding,
                                                        \* the published certificate the signature must verify under
                                                        verifier |-> IF MustSign THEN SignedBy ELSE "none"],
                                          \* the signing KeyDescriptor of sp.Metadata(), certificates in order
